@@ -42,7 +42,7 @@ def run(ctx):
     table = sync_extract.generate()
     cfg = cfg_from_table(table)
     ctx.extra["extracted_cfg"] = cfg
-    ok = C.lean_prove(ctx, "TinyVerif.Props.C02", drivers=["drv_c02"])
+    ok = C.lean_prove(ctx, "TinyVerif.Props.C02", drivers=["drv_c02"], more_props=["TinyVerif.Props.C02Live"])
     ctx.trusted.append("checks/sync_extract.py (translator of atomic call sites; cross-checked each run against the orderings/operands the running code passes to the shimmed atomics)")
     # the exploration runs on a debug build (overflow checks, debug_assert!) and on a release build (neither)
     for release in (False, True):
